@@ -10,9 +10,9 @@ import (
 )
 
 type verifRecord struct {
-	data      string
-	undecod   bool   // the decoder must reject it
-	want      string // encoding of the event when accepted
+	data    string
+	undecod bool   // the decoder must reject it
+	want    string // encoding of the event when accepted
 }
 
 func verifRecordsFor(dec decoder.Type) []verifRecord {
